@@ -320,6 +320,65 @@ def h_refine_pstep(ctx, nl, nr, k):
         ctx.prove("C13.pstep.refine.new_states_split_the_gap_mass_in_half", AND(*conds) if conds else True, info=info, replay=rp)
 
 
+def replay_truncation(sc):
+    """real compute_truncation on a 2-d model with different margins: every margin keeps at least the promised share of its mass on
+    each side of the central cell"""
+    import rpylib.model.levymodel.mixed.hem as HEM
+    from rpylib.distribution.levycopula import ClaytonCopula
+    import rpylib.model.levycopulamodel as LCMm
+
+    ms = [HEM.HEMModel(HEM.HEMParameters(sigma=0.1, p=0.5, eta1=30.0, eta2=8.0, intensity=3.0)),
+          HEM.HEMModel(HEM.HEMParameters(sigma=0.1, p=0.5, eta1=9.0, eta2=35.0, intensity=2.0))]
+    lcm = LCMm.LevyCopulaModel(models=ms, copula=ClaytonCopula(theta=0.7, eta=0.3))
+    h, prob = 0.05, 0.95
+    l, r = _REAL_TRUNC(model=lcm, h=h, truncation_probability=prob)
+    bad = []
+    for i, m in enumerate(ms):
+        nu = m.levy_triplet.nu.integrate
+        right = nu(h / 2, r) / nu(h / 2, np.inf)
+        left = nu(l, -h / 2) / nu(-np.inf, -h / 2)
+        if right < prob - 1e-9 or left < prob - 1e-9:
+            bad.append(f"margin {i}: keeps {left:.4f} of its left mass and {right:.4f} of its right mass inside [{l:.4f}, {r:.4f}]")
+    return bool(bad), f"compute_truncation(2-d HEM margins with different tails, h={h}, probability {prob}) = ({l:.4f}, {r:.4f}): " + "; ".join(bad)
+
+
+class _Margins:
+    """what compute_truncation reads of a multi-dimensional model"""
+
+    def __init__(self, models):
+        self.models = models
+
+    def dimension_model(self):
+        return len(self.models)
+
+
+def h_truncation(ctx, d):
+    """the real compute_truncation (root search = root contract) over abstract measures: the bounds bracket the central cell and every
+    margin keeps at least the requested share of its mass on each side (exactly the share in dimension 1)"""
+    h = ctx.real("h")
+    ctx.assume(h > 0)
+    prob = Fraction(9, 10)
+    models = [A.abs_levy_model(ctx, f"nu{i}", sigma=0.0, a=0.0, finite_activity=True) for i in range(d)]
+    for m in models:  # the library divides by the mass of each side
+        nu = m.levy_triplet.nu
+        ctx.assume(AND(SymReal(nu.pos_term(0, h / 2, INF)) > 0, SymReal(nu.neg_term(0, -INF, -h / 2)) > 0))
+    target = models[0] if d == 1 else _Margins(models)
+    if d > 1:
+        from rpylib.model.levycopulamodel import LevyCopulaModel  # noqa: F401 (isinstance checks inside compute_truncation)
+    l, r = _REAL_TRUNC(model=target, h=h, truncation_probability=float(prob))
+    rp = (replay_truncation, lambda m: {})
+    info = {"d": d}
+    ctx.prove("C13.truncation.bounds_bracket_the_central_cell", AND(l < -h / 2, r > h / 2), info=info, replay=rp)
+    for i, m in enumerate(models):
+        nu = m.levy_triplet.nu
+        right_kept, right_all = SymReal(nu.pos_term(0, h / 2, r)), SymReal(nu.pos_term(0, h / 2, INF))
+        left_kept, left_all = SymReal(nu.neg_term(0, l, -h / 2)), SymReal(nu.neg_term(0, -INF, -h / 2))
+        pr = float(prob)
+        if d == 1:
+            ctx.prove("C13.truncation.keeps_exactly_the_promised_share.1d", AND(EQ(right_kept, pr * right_all), EQ(left_kept, pr * left_all)), info=info, replay=rp)
+        ctx.prove("C13.truncation.every_margin_keeps_at_least_the_promised_share", AND(right_kept >= pr * right_all, left_kept >= pr * left_all), info=dict(info, margin=i), replay=rp)
+
+
 def h_twin(ctx):
     axis, h, pivot = sym_axis(ctx, 2, 2)
     grid = make_grid(h, pivot, [axis])
@@ -342,13 +401,15 @@ def harnesses(tier):
         hs.append(Harness(f"credit.{d}.{sym}", h_credit, {"d": d, "symmetric": sym}, max_paths=6000, batch=20))
     for nl, nr, d, k in ([(2, 2, 1, 1), (1, 2, 1, 2), (2, 1, 2, 1)] if q else [(2, 2, 1, 1), (1, 2, 1, 2), (2, 1, 2, 1), (3, 3, 1, 2), (2, 2, 1, 3), (2, 2, 3, 2)]):
         hs.append(Harness(f"refine.{nl}.{nr}.{d}.{k}", h_refine, {"nl": nl, "nr": nr, "d": d, "k": k}, max_paths=2000))
+    for d in (1, 2, 3):
+        hs.append(Harness(f"truncation.{d}", h_truncation, {"d": d}, max_paths=2000))
     for nl, nr, k in (((2, 2, 1), (1, 2, 2)) if q else ((2, 2, 1), (1, 2, 2), (3, 2, 2), (2, 3, 3))):
         hs.append(Harness(f"pstep.refine.{nl}.{nr}.{k}", h_refine_pstep, {"nl": nl, "nr": nr, "k": k}, max_paths=2000))
     hs.append(Harness("twin", h_twin, twin="must_fail"))
     return hs
 
 
-EXPECT = ["C13.pstep.refine.new_states_split_the_gap_mass_in_half", "C13.pstep.refine.h_halves_and_origin_neighbours_are_pm_h", "C13.uniform.strictly_increasing", "C13.uniform.zero_at_origin_index_with_pm_h_neighbours", "C13.fixed_size.strictly_increasing", "C13.geometric.strictly_increasing",
+EXPECT = ["C13.truncation.every_margin_keeps_at_least_the_promised_share", "C13.pstep.refine.new_states_split_the_gap_mass_in_half", "C13.pstep.refine.h_halves_and_origin_neighbours_are_pm_h", "C13.uniform.strictly_increasing", "C13.uniform.zero_at_origin_index_with_pm_h_neighbours", "C13.fixed_size.strictly_increasing", "C13.geometric.strictly_increasing",
           "C13.credit.strictly_increasing", "C13.credit.threshold_on_cell_boundary", "C13.refine.old_states_kept_at_scaled_index", "C13.refine.new_states_are_cell_boundaries",
           "C13.refine.h_halves", "C13.refine.truncations_unchanged"]
 
